@@ -290,7 +290,9 @@ func ruleWhoWritesX(c *Ctx, rule string, pkgRel, typeName string, allowed []stri
 	allow := map[string]bool{}
 	for _, a := range allowed {
 		allow[a] = true
-		c.Fn(a)
+		if c.FnOpt(a) == nil {
+			r.note("allowed writer %s no longer exists (inlined or removed): nothing to allow", a)
+		}
 	}
 	for _, fn := range c.Funcs {
 		f := E.fas[fn]
